@@ -92,6 +92,7 @@ func cmdFn(repo, name, prop string, verbose bool) int {
 		return 2
 	}
 	e.contracts = cs
+	e.known = &KnownFile{}
 	e.solver, err = newSolver()
 	if err != nil {
 		fmt.Println("BROKEN solver:", err)
